@@ -1,8 +1,80 @@
 //! Extra implementation-side modes for property C06 (the shared `parse` mode lives in parse.rs).
+//!
+//! `(c06 (cmd ...) (argv ...))`        -> the `parse` result, and for an Ok result the value of
+//!                                        `ArgMatches::args_present()` at every level of the chain:
+//!                                        `ok (m ...) (present true false ...)`
+//! `(c06pair (cmd A) (argv ...))`     -> `pair <result A> ;; <result B>` (same argv, same environment;
+//!                                        B is A with the `default` / `dif` items of every argument removed)
+use crate::modes::parse::{build_cmd, show_result, EnvGuard};
 use crate::sexp::Sx;
+use clap::ArgMatches;
+use std::ffi::OsString;
+use std::os::unix::ffi::OsStringExt;
+use std::panic::{catch_unwind, AssertUnwindSafe};
+
+fn os(x: &Sx) -> OsString {
+    OsString::from_vec(x.bytes())
+}
+
+fn present_chain(m: &ArgMatches) -> String {
+    let mut v = vec![];
+    let mut cur = Some(m);
+    while let Some(m) = cur {
+        v.push(if m.args_present() { "true" } else { "false" });
+        cur = m.subcommand().map(|(_, s)| s);
+    }
+    format!("(present {})", v.join(" "))
+}
+
+fn run_one(cmd_items: &[Sx], argv: &[Sx], with_present: bool) -> String {
+    let mut env = EnvGuard(vec![]);
+    let cmd = match catch_unwind(AssertUnwindSafe(|| {
+        let c = build_cmd(cmd_items, &mut env);
+        let mut probe = c.clone();
+        probe.build();
+        c
+    })) {
+        Ok(c) => c,
+        Err(_) => return "INVALID".into(),
+    };
+    let argv: Vec<OsString> = argv.iter().map(os).collect();
+    let r = cmd.try_get_matches_from(argv);
+    let extra = match (&r, with_present) {
+        (Ok(m), true) => format!(" {}", present_chain(m)),
+        _ => String::new(),
+    };
+    format!("{}{}", show_result(r), extra)
+}
+
+/// the command spec without `(default ..)` and `(dif ..)` items (at every level)
+fn strip_defaults(x: &Sx) -> Sx {
+    match x {
+        Sx::List(l) => Sx::List(
+            l.iter()
+                .filter(|it| !matches!(it, Sx::List(v) if !v.is_empty() && matches!(&v[0], Sx::Sym(h) if h == "default" || h == "dif")))
+                .map(strip_defaults)
+                .collect(),
+        ),
+        other => other.clone(),
+    }
+}
 
 /// Returns `Some(result)` when `head` is a mode of this file.
 pub fn dispatch(head: &str, args: &[Sx]) -> Option<String> {
-    let _ = (head, args);
-    None
+    match head {
+        "c06" => Some(run_one(args[0].args(), args[1].args(), true)),
+        "c06pair" => {
+            let a = match catch_unwind(AssertUnwindSafe(|| run_one(args[0].args(), args[1].args(), false))) {
+                Ok(s) => s,
+                Err(_) => "PANIC".into(),
+            };
+            let stripped = strip_defaults(&args[0]);
+            let b = match catch_unwind(AssertUnwindSafe(|| run_one(stripped.args(), args[1].args(), false))) {
+                Ok(s) => s,
+                Err(_) => "PANIC".into(),
+            };
+            Some(format!("pair {a} ;; {b}"))
+        }
+        _ => None,
+    }
 }
